@@ -142,6 +142,7 @@ def run_case(case):
                 # most of read_timeout_s passes in silence before each packet; then the header comes in one piece and the payload in a dozen fragments over a
                 # link on which every transfer takes 0.3 s: no single wait, and no single packet part (header, payload), comes near any limit
                 dims["frag"], dims["empty_rate"] = "trickle", 0.0
+                dims["noise"] = []          # (a packet of another stream read more than read_timeout_s after read() began ends that read: legitimate, and only 2 s away here)
                 split_sizes_ = [rng.choice([33, 40, 64])]
                 stats["slow_devices_on_slow_links"] = 1
             stats["slow_devices"] = 1
